@@ -20,7 +20,7 @@ func init() {
 		Explanation: "Decided: (R1) the reader's cursor only advances by a count that passed the bounds check or by the positive byte count of a varint, and the buffer is indexed/sliced only at the cursor under a check of the same count (fixed-width reads: check(k>=width)) with no cursor movement between that check and the access; " +
 			"(R2) every allocation whose size derives from a wire integer (make, map size hint, reflect.MakeSlice, helper constructors) is dominated by a comparison with a constant cap, the remaining length, or the bounds check; the three documented caps (map entries, version-vector entries, frame length) are constant caps; " +
 			"(R3) panic sites of the closed class list have their guard: registry-typed assertions, reflect preconditions (Elem/IsNil after Kind()==Ptr, Interface only for exported/interfaceable values, Addr after CanAddr, Len/Index/NumField/Field inside their kind's case), nil checks before dereferencing pointer-typed message fields and helper parameters, nil check of the optional Codec, the descriptor's reader/writer only for non-outside descriptors, nil-pointer messages rejected before the writer; " +
-			"(R4) inside the primitive reader no store through the caller's pointer is followed by a read that can fail, and every nested read of the reflective reader targets a temporary (reflect.New / reflect.MakeSlice), never the caller's own elements; (R5) every call-graph cycle inside the codec has an edge that passes a structurally smaller value. " +
+			"(R4) inside the primitive reader no store through the caller's pointer is followed by a read that can fail, and every nested read of the reflective reader targets a temporary (reflect.New / reflect.MakeSlice), never the caller's own elements; (R5) every call-graph cycle inside the codec has an edge that passes a structurally smaller value; (R6) a loop whose test compares against a wire-supplied integer either performs, on every iteration, a read from the codec's Reader (which fails at the end of the input, so the iteration count is bounded by the input) or has its bound dominated by a constant cap / the remaining length / the bounds check. " +
 			"NOT decided: time proportionality beyond allocation bounds; cyclic Go values passed to the writer; panics outside the listed construct classes.",
 		Rules: []Rule{
 			{ID: "C13.R1", Min: 15, Desc: "cursor discipline", Fn: c13Cursor},
@@ -28,6 +28,7 @@ func init() {
 			{ID: "C13.R3", Min: 40, Desc: "panic sites guarded", Fn: c13Panics},
 			{ID: "C13.R4", Min: 17, Desc: "decode into temporaries", Fn: c13Temporaries},
 			{ID: "C13.R5", Min: 2, Desc: "progress in recursion", Fn: c13Recursion},
+			{ID: "C13.R6", Min: 4, Desc: "loops bounded by a wire integer consume input or are capped", Fn: c13Loops},
 		},
 	})
 }
@@ -607,6 +608,105 @@ func c13Alloc(p *Program, r *Report) {
 		}
 	}
 	r.Check(constCaps >= 3, "documented caps are constant caps", token.NoPos, fmt.Sprintf("%d wire-sized allocations are bounded by a compile-time constant (map entries, version-vector entries, frame length)", constCaps))
+}
+
+// c13Loops: "never loops". A loop test against a wire-supplied integer is an attacker-chosen iteration count.
+func c13Loops(p *Program, r *Report) {
+	c := p.codec()
+	check := p.methodNamed(c.ReaderT, "check")
+	scope := p.codecScope()
+	for _, fn := range p.Mod {
+		if fn.Name() == "onReadConn" {
+			scope[fn] = &cgStep{}
+		}
+	}
+	n := 0
+	for _, fn := range sortedFuncs(scope) {
+		t := p.wireInts(fn)
+		if len(t) == 0 {
+			continue
+		}
+		g := p.ig(fn)
+		// reads that fail at the end of the input: methods of the Reader, and module helpers taking the Reader
+		reads := nodesWhere(g, func(in ssa.Instruction) bool {
+			cc := callOf(in)
+			if cc == nil || cc.StaticCallee() == nil {
+				return false
+			}
+			cal := cc.StaticCallee()
+			if cal.Signature.Recv() != nil && namedOf(cal.Signature.Recv().Type()) == c.ReaderT && strings.HasPrefix(strings.ToLower(cal.Name()), "read") {
+				return true
+			}
+			if p.inModule(cal) {
+				if _, isW := p.streamParam(cal); !isW {
+					for _, prm := range cal.Params {
+						if namedOf(prm.Type()) == c.ReaderT {
+							return true
+						}
+					}
+				}
+			}
+			return false
+		})
+		ord := 0
+		for _, ifi := range ifsOf(fn) {
+			f, ok := condFact(ifi.Cond, true)
+			if !ok || f.Y == nil {
+				continue
+			}
+			var bound ssa.Value
+			switch {
+			case t[f.Y] || t[unconv(f.Y)]:
+				bound = f.Y
+			case t[f.X] || t[unconv(f.X)]:
+				bound = f.X
+			default:
+				continue
+			}
+			hn := g.Idx[ifi]
+			if !g.ReachAfter(hn, nil, nil)[hn] {
+				continue // not a loop test
+			}
+			ord++
+			n++
+			construct := fmt.Sprintf("loop #%d bounded by a wire integer in %s", ord, fnName(fn))
+			// (1) every cycle through the test passes a failing read
+			if len(reads) > 0 && !g.ReachAfter(hn, reads, nil)[hn] {
+				r.Check(true, construct, ifi.Cond.Pos(), "every iteration performs a read from the codec's Reader, which fails at the end of the input: the iteration count is bounded by the input length")
+				continue
+			}
+			// (2) the bound is capped before the loop
+			related := map[ssa.Value]bool{bound: true, unconv(bound): true}
+			for _, b := range fn.Blocks {
+				for _, in2 := range b.Instrs {
+					if cv, ok := in2.(*ssa.Convert); ok && related[cv.X] {
+						related[cv] = true
+					}
+				}
+			}
+			capE := g.edgesWhere(func(f cmpFact) bool {
+				if !related[f.X] || (f.Op != token.LEQ && f.Op != token.LSS) {
+					return false
+				}
+				if f.Y == nil {
+					return !f.IsNil
+				}
+				o := p.origins(f.Y)
+				return anyContains(o, "Remaining") || anyContains(o, "call:len")
+			})
+			okCap := len(capE) > 0 && g.DominatedByEdges(hn, capE)
+			if !okCap && check != nil {
+				chk, _ := callEdges(g, func(cc *ssa.Call) bool {
+					return cc.Call.StaticCallee() == check && len(cc.Call.Args) == 2 && related[cc.Call.Args[1]]
+				})
+				okCap = len(chk) > 0 && g.DominatedByEdges(hn, chk)
+			}
+			r.Check(okCap, construct, ifi.Cond.Pos(), "the loop does not consume Reader input on every iteration, so its wire-supplied bound must be dominated by a constant cap, the remaining length or the bounds check — otherwise a peer chooses how long (or whether ever) the loop ends")
+		}
+	}
+	if n == 0 {
+		r.Unresolved("no loop bounded by a wire integer found in the codec scope")
+	}
 }
 
 // ---- PANIC ------------------------------------------------------------------------------
